@@ -3,7 +3,7 @@ K = 'github.com/ProjectSerenity/firefly/kernel'
 
 PROP = {
     'pkg': K + '/device/acpi/aml',
-    'tests': [{'name': 'TestVerifC11', 'checks_quick': 40000, 'checks_thorough': 200000}],
+    'tests': [{'name': 'TestVerifC11', 'checks_quick': 40000, 'checks_thorough': 1200000}],
     'rule': 'rapid generates a namespace (objects in the root, in the predefined scopes and nested up to 3 deep inside '
             'Device/ThermalZone/Processor/PowerResource) and then chooses how each object is written: lexically nested, '
             'hoisted into a Scope directive (absolute, relative or single-segment path), declared with a path-prefixed or '
